@@ -34,7 +34,8 @@ def ref_call(spec, inputs):
         elif name == "DISCARD":
             outs = []
         else:
-            outs = ["{}.{}({})".format(name, j, ",".join(map(str, args)))
+            outs = ["{}.{}({})".format(xspec.term_label(b), j,
+                                       ",".join(map(str, args)))
                     for j in range(n_out)]
         vals = vals[:off] + outs + vals[off + n_in:]
     return tuple(vals)
